@@ -4,7 +4,8 @@ Counter-model search for the translated power methods (C12, round 7).
 When a theorem of Props/C12Prog.lean (`C12_gen_power_on_sem` …) does not check after a change of the source, this driver looks
 for a node on which the translated body and the model's function differ: it enumerates small nodes (every power state,
 durations -1/0/2, countdowns 0/1, the reset flag, every interface list of length ≤ 3 over NIC-like / switch-port-like
-interfaces, plugged in or not, enabled or not, a few software states) and prints the first difference per method.
+interfaces, plugged in or not, enabled or not, a few software states) and prints, per method, the differing node closest to a
+fresh node (`weight`).
 It proves nothing (the theorems do); it only turns a broken proof into something a person can read.
 Line protocol: `search` → one line per method: `<method> ok <nodes tried>` or `<method> counter-model <node> | translated: … | model: …`.
 -/
@@ -51,10 +52,22 @@ def showNode (n : Node) : String :=
   s!"st={showSt n.st} up_dur={n.upDur} down_dur={n.downDur} up_cd={n.upCd} down_cd={n.downCd} rs={n.resetting} " ++
   s!"nics={",".intercalate (n.nics.map showNic)} svcs={",".intercalate (n.svcs.map showSvc)} apps={",".intercalate (n.apps.map showApp)} h={">".intercalate (n.hist.reverse.map showSt)}"
 
+/-- how far a node is from the node a fresh episode starts with (ON, no countdown running, no reset pending, durations ≥ 0,
+few interfaces, no software): the search prints the differing node of LEAST weight, so that the counter-model of a broken
+`_sem` theorem is a node a request sequence reaches at once whenever such a one exists (seeded C12-h: ON, shut-down duration 0) -/
+def weight (n : Node) : Nat :=
+  (if n.resetting then 16 else 0) + (if n.upCd != 0 then 8 else 0) + (if n.downCd != 0 then 8 else 0) +
+  (match n.st with | .on => 0 | .off => 2 | _ => 6) +
+  (if n.upDur < 0 then 3 else if n.upDur == 0 then 0 else 1) + (if n.downDur < 0 then 3 else if n.downDur == 0 then 0 else 1) +
+  2 * n.nics.length + (if n.svcs.isEmpty then 0 else 3)
+
 def firstDiff (name : String) (f g : Node → Node × Option Bool) : String :=
-  match smallNodes.find? (fun n => f n != g n) with
+  let bad := smallNodes.filter (fun n => f n != g n)
+  match bad.foldl (fun (b : Option Node) n => match b with
+      | none => some n
+      | some m => if weight n < weight m then some n else some m) none with
   | none => s!"{name} ok {smallNodes.length}"
-  | some n => s!"{name} counter-model {showNode n} | translated: {showNode (f n).1} answer={repr (f n).2} | model: {showNode (g n).1} answer={repr (g n).2}"
+  | some n => s!"{name} counter-model {showNode n} | translated: {showNode (f n).1} answer={repr (f n).2} | model: {showNode (g n).1} answer={repr (g n).2} | differing small nodes: {bad.length} of {smallNodes.length}"
 
 def searchAll : List String :=
   [firstDiff "_start_up_actions" (fun n => (genStart n, none)) (fun n => (startUpActions n, none)),
@@ -64,6 +77,39 @@ def searchAll : List String :=
    firstDiff "reset" genReset (fun n => ((reset n).1, some (reset n).2)),
    firstDiff "apply_timestep" genTickPower (fun n => (tickDown (tickUp n), none))]
 
+/-! the interfaces' own methods: EVERY context (interface × node / no node × node state × default_gateway_hello) -/
+def allCtx : List IfCtx :=
+  [false, true].flatMap fun e => [true, false].flatMap fun l => [NicKind.wired, .ipWired, .wireless].flatMap fun k =>
+  [true, false].flatMap fun hn => [PState.on, .off, .booting, .shuttingDown].flatMap fun st => [false, true].map fun hello =>
+    { nic := { enabled := e, linked := l, kind := k }, hasNode := hn, nodeSt := st, hello := hello }
+
+def showOut (o : IOut) : String :=
+  s!"{showNic o.1} " ++ (match o.2 with | none => "RAISES" | some none => "answer=None" | some (some b) => s!"answer={b}")
+
+def firstDiffI (name : String) (f g : IfCtx → IOut) : String :=
+  match allCtx.find? (fun c => f c != g c) with
+  | none => s!"{name} ok {allCtx.length}"
+  | some c => s!"{name} counter-model interface={showNic c.nic} node={if c.hasNode then showSt c.nodeSt else "None"} has_default_gateway_hello={c.hasNode && c.hello} | translated: {showOut (f c)} | model: {showOut (g c)}"
+
+def ctxOn (c : IfCtx) : Bool := c.hasNode && c.nodeSt == .on
+
+def searchIfaces : List String :=
+  [firstDiffI "WiredNetworkInterface.enable" genWiredEnable (fun c => (c.nic.enable (ctxOn c), some (some (c.nic.enable (ctxOn c)).enabled))),
+   firstDiffI "IPWiredNetworkInterface.enable" genIpWiredEnable (fun c => (c.nic.enable (ctxOn c), some (some true))),
+   firstDiffI "WirelessNetworkInterface.enable" genWirelessEnable (fun c => (c.nic.enableNoLink (ctxOn c), some (some (c.nic.enableNoLink (ctxOn c)).enabled))),
+   firstDiffI "IPWirelessNetworkInterface.enable" genIpWirelessEnable (fun c => (c.nic.enableNoLink (ctxOn c), some (some (c.nic.enableNoLink (ctxOn c)).enabled))),
+   firstDiffI "WiredNetworkInterface.disable" genWiredDisable (fun c => (c.nic.disable, some (some true))),
+   firstDiffI "WirelessNetworkInterface.disable" genWirelessDisable (fun c => (c.nic.disable, some (some true)))]
+
+/-! the translated interface methods as a TABLE over every context, for the real-object probe of harness/rigs/power.py
+(`iface_probe`): `table <method> <enabled><linked><kind> <node state | None> <hello 0/1> -> <interface afterwards> <answer | RAISES>` -/
+def tableLines : List String :=
+  [("WiredNetworkInterface.enable", genWiredEnable), ("IPWiredNetworkInterface.enable", genIpWiredEnable),
+   ("WirelessNetworkInterface.enable", genWirelessEnable), ("IPWirelessNetworkInterface.enable", genIpWirelessEnable),
+   ("WiredNetworkInterface.disable", genWiredDisable), ("WirelessNetworkInterface.disable", genWirelessDisable)].flatMap fun (nm, f) =>
+    allCtx.map fun c =>
+      s!"table {nm} {showNic c.nic} {if c.hasNode then showSt c.nodeSt else "None"} {if c.hasNode && c.hello then 1 else 0} -> {showOut (f c)}"
+
 def main : IO Unit := do
-  for l in searchAll do
+  for l in searchAll ++ searchIfaces ++ tableLines do
     IO.println l
